@@ -10,6 +10,7 @@ import (
 	"go/ast"
 	"go/token"
 	"go/types"
+	"golang.org/x/tools/go/packages"
 	"math/big"
 	"sort"
 	"strings"
@@ -344,6 +345,12 @@ func (c *checker) complete() {
 					c.out.ok("complete", q)
 					continue
 				}
+				if c.usedOnlyInElinCovered(pk, o) {
+					// a named form of literals that live inside limb code decided functionally by E-LIN
+					// (bias vectors of Sub / Neg, masks): its value takes part in those identities
+					c.out.ok("complete", q)
+					continue
+				}
 				c.out.fail("complete", c.pos(o.Pos()), q, fmt.Sprintf("package-level integer constant %#x has no entry in the E-CONST definition table", v))
 			}
 		}
@@ -576,4 +583,35 @@ func ElinCovered(q string) bool {
 		return true
 	}
 	return false
+}
+
+// usedOnlyInElinCovered: the constant is used, and every use lies in the body of a function whose
+// literals are decided by the E-LIN identities (ElinCovered).
+func (c *checker) usedOnlyInElinCovered(pk *packages.Package, o *types.Const) bool {
+	uses := 0
+	for id, obj := range pk.TypesInfo.Uses {
+		if obj != o {
+			continue
+		}
+		uses++
+		covered := false
+		for _, f := range pk.Syntax {
+			if id.Pos() < f.Pos() || id.Pos() > f.End() {
+				continue
+			}
+			for _, decl := range f.Decls {
+				fd, ok := decl.(*ast.FuncDecl)
+				if !ok || fd.Body == nil || id.Pos() < fd.Body.Pos() || id.Pos() > fd.Body.End() {
+					continue
+				}
+				if fn, _ := pk.TypesInfo.Defs[fd.Name].(*types.Func); fn != nil && ElinCovered(funcQualified(fn)) {
+					covered = true
+				}
+			}
+		}
+		if !covered {
+			return false
+		}
+	}
+	return uses > 0
 }
